@@ -461,6 +461,34 @@ pub fn step_adm(sim: &mut Sim, ctx: &mut Ctx, adm: &AdmSwarm) -> Option<Tx> {
         9 => {
             let init = some!(ctx.rng, 2, 3, w(*ctx.rng.pick(&[0.5, 1.0, 2.0, 10.0, 15.0, 19.0, 50.0, 100.0, 101.0])));
             let maint = some!(ctx.rng, 2, 3, w(*ctx.rng.pick(&[1.0, 3.0, 11.0, 16.0, 20.0, 60.0, 100.0, 150.0])));
+            if ctx.rng.chance(1, 3) {
+                // role rotation: one to three roles move to fresh keys (or two roles swap); applied
+                // directly so that the harness's picture of who holds which role stays true
+                let mut na = g.admins.clone();
+                let mut fresh = |ctx: &mut Ctx, sim: &mut Sim| -> Pubkey {
+                    let k = ctx.rng.pubkey();
+                    sim.apply(Event::SetAccount { key: k, account: Some(crate::rt::Account::system(1_000_000_000_000)), why: "fixture_new_role_holder" });
+                    k
+                };
+                for _ in 0..ctx.rng.range(1, 3) {
+                    match ctx.rng.below(8) {
+                        0 => na.admin = fresh(ctx, sim),
+                        1 => na.emode = fresh(ctx, sim),
+                        2 => na.curve = fresh(ctx, sim),
+                        3 => na.limit = fresh(ctx, sim),
+                        4 => na.emissions = fresh(ctx, sim),
+                        5 => na.metadata = fresh(ctx, sim),
+                        6 => na.risk = fresh(ctx, sim),
+                        _ => std::mem::swap(&mut na.curve, &mut na.limit),
+                    }
+                }
+                sim.stats.fault("group_roles_rotated");
+                let out = sim.apply(Event::Tx(Tx::one("group_admin", ix::group_configure(g.key, g.admins.admin, &na, init, maint))));
+                if out.map(|o| o.ok()).unwrap_or(false) {
+                    ctx.world.groups[gi].admins = na;
+                }
+                return None;
+            }
             Tx::one("group_admin", ix::group_configure(g.key, g.admins.admin, &g.admins, init, maint))
         }
         10 => Tx::one(
@@ -520,10 +548,70 @@ pub fn step_adm(sim: &mut Sim, ctx: &mut Ctx, adm: &AdmSwarm) -> Option<Tx> {
                     "group_admin",
                     ix::set_fixed_oracle_price(g.key, g.admins.admin, b.keys.bank, w(b.price_micro as f64 / 1e6)),
                 ),
-                s => Tx::one(
-                    "group_admin",
-                    ix::configure_bank_oracle(g.key, g.admins.admin, b.keys.bank, s as u8, b.oracle_key, vec![ix::ro(b.oracle_key)]),
-                ),
+                s => {
+                    // mostly re-state the current oracle; sometimes point the bank at something
+                    // else: another bank's feed of the same or the other kind, a token account, a
+                    // wrong-owner clone of its own feed (the last two must be refused)
+                    let mut setup = s as u8;
+                    let mut key = b.oracle_key;
+                    match ctx.rng.below(8) {
+                        0 | 1 => {
+                            let others: Vec<&crate::world::BankInfo> = g.banks.iter().filter(|x| x.oracle != crate::world::OracleKind::Fixed && x.staked.is_none() && x.oracle_key != b.oracle_key).collect();
+                            if let Some(o) = others.first() {
+                                key = o.oracle_key;
+                                setup = if ctx.rng.chance(3, 4) {
+                                    match o.oracle {
+                                        crate::world::OracleKind::Swb => OracleSetup::SwitchboardPull as u8,
+                                        _ => OracleSetup::PythPushOracle as u8,
+                                    }
+                                } else {
+                                    // kind that does not match the account
+                                    match o.oracle {
+                                        crate::world::OracleKind::Swb => OracleSetup::PythPushOracle as u8,
+                                        _ => OracleSetup::SwitchboardPull as u8,
+                                    }
+                                };
+                                sim.stats.fault("oracle_reconfigured_to_other_feed");
+                            }
+                        }
+                        2 => {
+                            if let Some(t) = ctx.world.stranger_tokens.get(&b.keys.mint) {
+                                key = *t;
+                                sim.stats.fault("oracle_reconfigured_to_non_oracle_account");
+                            }
+                        }
+                        3 => {
+                            if let Some(a) = sim.store.get(&b.oracle_key).cloned() {
+                                let k = ctx.rng.pubkey();
+                                let mut c = a;
+                                c.owner = crate::rt::system_id();
+                                sim.apply(Event::SetAccount { key: k, account: Some(c), why: "fixture_lookalike" });
+                                key = k;
+                                sim.stats.fault("oracle_reconfigured_to_non_oracle_account");
+                            }
+                        }
+                        _ => {}
+                    }
+                    if key != b.oracle_key {
+                        // applied directly: the harness must know which feed the bank now follows
+                        let out = sim.apply(Event::Tx(Tx::one("group_admin", ix::configure_bank_oracle(g.key, g.admins.admin, b.keys.bank, setup, key, vec![ix::ro(key)]))));
+                        if out.map(|o| o.ok()).unwrap_or(false) {
+                            let donor = g.banks.iter().find(|x| x.oracle_key == key).cloned();
+                            if let (Some(d), Some(info)) = (donor, ctx.world.bank_info_mut(&b.keys.bank)) {
+                                info.oracle = d.oracle;
+                                info.oracle_key = d.oracle_key;
+                                info.feed_id = d.feed_id;
+                                info.expo = d.expo;
+                                info.price_micro = d.price_micro;
+                            }
+                        }
+                        return None;
+                    }
+                    Tx::one(
+                        "group_admin",
+                        ix::configure_bank_oracle(g.key, g.admins.admin, b.keys.bank, setup, key, vec![ix::ro(key)]),
+                    )
+                }
             }
         }
         13 => Tx::one("group_admin", ix::close_bank(g.key, b.keys.bank, g.admins.admin)),
@@ -553,6 +641,21 @@ pub fn step_adm(sim: &mut Sim, ctx: &mut Ctx, adm: &AdmSwarm) -> Option<Tx> {
                     let old = ctx.world.fee_wallet;
                     ctx.world.retired_fee_wallets.push(old);
                     ctx.world.fee_wallet = neww;
+                }
+                if ctx.rng.chance(1, 5) {
+                    // the global fee admin hands over to a fresh key (applied directly, so that
+                    // the harness keeps knowing who the admin is)
+                    let newa = ctx.rng.pubkey();
+                    sim.apply(Event::SetAccount { key: newa, account: Some(crate::rt::Account::system(1_000_000_000_000)), why: "fixture_new_role_holder" });
+                    sim.stats.fault("global_fee_admin_rotated");
+                    let out = sim.apply(Event::Tx(Tx::one(
+                        "fee_admin",
+                        ix::edit_global_fee_state(ctx.world.fee_admin, newa, ctx.world.fee_wallet, 0, 0, w(0.01), w(0.025), w(0.05)),
+                    )));
+                    if out.map(|o| o.ok()).unwrap_or(false) {
+                        ctx.world.fee_admin = newa;
+                    }
+                    return None;
                 }
                 Tx::one(
                 "fee_admin",
